@@ -80,8 +80,12 @@ def gen_random(scn, rng, depth):
             hist.append(('SetPrio', [rng.choice(apps), rng.choice([0, 1, 50, 100])]))
         elif r < 0.58 and up:
             s = rng.choice(sorted(up))
-            up.discard(s)
             hist.append(('NodeDown', [s]))
+            if rng.random() < 0.35:
+                # the node re-registers (possibly with different capacity/traits)
+                hist.append(('NodeUp', [s, rng.randrange(len(scn['sprofiles'])) + 1]))
+            else:
+                up.discard(s)
         elif r < 0.66 and (exists - up):
             s = rng.choice(sorted(exists - up))
             up.add(s)
